@@ -555,7 +555,70 @@ func check(c Case) (string, string, outcome) {
 			return base + " inconsistent-after-fault", fmt.Sprintf("after store call %d (%s) failed during step %d of %v: %s", fault, e.fired(), firedAt, c.Steps, p), out
 		}
 	}
+	if sig, msg := constructCheck(c, dry); sig != "" {
+		return sig, msg, out
+	}
 	return "", "", out
+}
+
+// constructCheck: constructing the file system is an operation as well (it makes the root directory). A store call that
+// fails inside NewFS -- over a fresh store, or over the store the fault-free history has left behind -- makes NewFS fail, or
+// NewFS hands out a file system whose root answers and which shows what the store holds.
+func constructCheck(c Case, dry *env) (string, string) {
+	base := "C14/" + c.Kind
+	want, _ := ops.SnapFS(dry.fs)
+	for _, populated := range []bool{false, true} {
+		for fault := 1; fault <= 4; fault++ {
+			e := &env{kind: c.Kind}
+			var st keyvalue.Store
+			switch {
+			case c.Kind == "reject" && populated:
+				e.reject = dry.reject
+				st = e.reject
+			case c.Kind == "reject":
+				e.reject = &rejectStore{inner: mem.NewStoreForVerif()}
+				st = e.reject
+			default:
+				e.plain = kvstore.New()
+				if populated {
+					e.plain = dry.plain
+				}
+				st = e.plain
+				if c.Kind == "locking" {
+					st = newLockStore(e.plain)
+				}
+			}
+			if e.plain != nil {
+				e.plain.Fired, e.plain.FailLen, e.plain.FailAt = "", 0, e.plain.Calls()+fault
+			} else {
+				e.reject.fired, e.reject.failN, e.reject.failAt = "", 0, e.reject.calls+fault
+			}
+			var fs *keyvalue.FS
+			var err error
+			pan, hung := vf.Guard(func() { fs, err = keyvalue.NewFS(st) })
+			fired := e.fired()
+			e.disarm()
+			if pan != "" || hung {
+				return base + " construct:crash", fmt.Sprintf("NewFS (populated store: %v) with store call %d (%s) failing: %s hung=%v", populated, fault, fired, pan, hung)
+			}
+			if err != nil || fs == nil {
+				if fired == "" {
+					return base + " construct:fault-free-error", fmt.Sprintf("NewFS (populated store: %v) failed without a failing store call: %v", populated, err)
+				}
+				continue
+			}
+			fi, serr := fs.Stat(".")
+			if serr != nil || !fi.IsDir() {
+				return base + " construct:swallowed", fmt.Sprintf("NewFS (populated store: %v) reported success although store call %d (%s) failed, and the root does not answer: Stat(\".\") = %v", populated, fault, fired, serr)
+			}
+			if populated {
+				if got, _ := ops.SnapFS(fs); !reflect.DeepEqual(got, want) {
+					return base + " construct:tree-differs", fmt.Sprintf("NewFS over the store of %v with store call %d (%s) failing reported success but shows %v, the store holds %v", c.Steps, fault, fired, got, want)
+				}
+			}
+		}
+	}
+	return "", ""
 }
 
 func genSteps(t *rapid.T) []Step {
